@@ -5,20 +5,25 @@ serviceConnects / serviceAll with TLC-chosen TLS handshake answers) is replayed 
 objects whose listening socket and accepted sockets are ScriptedSocket doubles (no port is bound; ServerTls runs over a
 FakeTlsContext).
 """
+import errno
+from concurrent.futures import ThreadPoolExecutor
+
 from .. import doubles_net as dn
 from .. import env, graph, replay, tlc
 from ..replay import Divergence
-from ._net import graph_traces, jvm_env
+from ._net import jvm_env
 
 SPEC_DIR = env.SPECS + "/net"
 LOCAL = ("127.0.0.1", 6101)
 ADDRS = {"a1": ("10.0.0.1", 5001), "a2": ("10.0.0.2", 5002), "a3": ("10.0.0.3", 5003)}
 NAMES = {v: k for k, v in ADDRS.items()}
+LOSS = (errno.ECONNRESET, errno.ENETRESET, errno.ENETUNREACH, errno.EHOSTUNREACH, errno.ENETDOWN, errno.EHOSTDOWN,
+        errno.ETIMEDOUT, errno.ECONNREFUSED)
 
 
 def cfg_text(kinds, addrs, maxconns):
     return ('SPECIFICATION Spec\nCONSTANTS\n  Kinds = {%s}\n  Addrs = {%s}\n  MaxConns = %d\n'
-            'INVARIANT OnePerAddress\nINVARIANT ReplacedIsShutDown\nINVARIANT RemoveCloses\nINVARIANT NeverRaises\n'
+            'INVARIANT OnePerAddress\nINVARIANT ReplacedIsShutDown\nINVARIANT RemoveCloses\nPROPERTY NeverRaises\n'
             % (", ".join('"%s"' % k for k in kinds), ", ".join('"%s"' % a for a in addrs), maxconns))
 
 
@@ -42,6 +47,8 @@ class ServerAdapter:
         self.addr = {}         # connection id -> address name
         self.waiting = []      # [(id, address name)] still in the listen double's accept script
         self.peerclosed = set()
+        self.nlost = 0
+        self._ready = set()    # id(Incomer) of entries seen in .ixes
         self.names = sorted(str(a) for a in init["ixes"].keys())
         self._known = {}       # id(Incomer) -> connection id
         self._keep = []        # the Incomers themselves (keeps id() stable, remembers entries that left the table)
@@ -75,6 +82,7 @@ class ServerAdapter:
             if ca not in NAMES:
                 raise AssertionError("unknown address %r in .ixes" % (ca,))
             tab[NAMES[ca]] = self._id_of(ix)
+            self._ready.add(id(ix))
             if ix.ca != ca:
                 raise AssertionError("entry keyed %r holds the connection of %r" % (ca, ix.ca))
         out["ixes"] = {a: tab.get(a, 0) for a in names}
@@ -86,7 +94,8 @@ class ServerAdapter:
         replaced = set(expected["replaced"]) if expected is not None else set()
         out["down"] = frozenset(cid for cid, s in self.socks.items() if s.shut)
         # whether a replaced stale connection is also closed is not specified
-        out["closed"] = frozenset(cid for cid, s in self.socks.items() if s.closed and cid not in replaced)
+        want = set(expected["closed"]) if expected is not None else set()
+        out["closed"] = frozenset(cid for cid, s in self.socks.items() if s.closed and (cid not in replaced or cid in want))
         out["cut"] = frozenset(self._id_of(ix) for ix in srv.ixes.values() if ix.cutoff) | (self._cut_gone())
         out["pending"] = tuple((cid, a) for (cid, a) in self.waiting)
         if res is not None:
@@ -98,34 +107,36 @@ class ServerAdapter:
         gone = set()
         live = {id(ix) for ix in self.srv.ixes.values()}
         for ix in self._keep:
-            if id(ix) not in live and ix.cutoff:
+            if id(ix) not in live and id(ix) in self._ready and ix.cutoff:
                 gone.add(self._known[id(ix)])
         return frozenset(gone)
 
     def step(self, name, args, expected):
-        act = args[0]
         srv = self.srv
-        ca = ADDRS.get(str(act["ca"]))
+        ca = ADDRS.get(str(args[0])) if name not in ("ServiceConnects", "ServiceAll") else None
         res = "none"
         if name == "Arrive":
             cid = len(self.socks) + 1
             s = dn.ScriptedSocket(name="c%d" % cid, peer=ca, sockname=srv.eha, connected=True)
             self.socks[cid] = s
-            self.addr[cid] = str(act["ca"])
-            self.waiting.append((cid, str(act["ca"])))
+            self.addr[cid] = str(args[0])
+            self.waiting.append((cid, str(args[0])))
             self.listen.push("accept", dn.conn(s, ca))
         elif name == "PeerClose":
             cid = self._id_of(srv.ixes[ca])
             self.peerclosed.add(cid)
         elif name in ("ServiceConnects", "ServiceAll"):
-            h = act["h"]
+            h = args[0]
             if self.kind == "tls":
                 # answers of the TLS layer to the handshakes this call will attempt
                 for cid, s in self.socks.items():
                     a = self.addr[cid]
                     if s.closed or cid in {self._known.get(id(ix)) for ix in srv.ixes.values()}:
                         continue
-                    if h[a] in ("ok", "want"):
+                    if h[a] == "lost":
+                        self.nlost += 1
+                        s.push("do_handshake", dn.TLS_EOF if self.nlost % 3 == 0 else dn.err(LOSS[self.nlost % len(LOSS)]))
+                    elif h[a] in ("ok", "want"):
                         s.push("do_handshake", dn.OK if h[a] == "ok" else dn.WANT_READ)
             if name == "ServiceAll":
                 for cid in self.peerclosed:
@@ -135,7 +146,7 @@ class ServerAdapter:
                 srv.serviceConnects()
             else:
                 srv.serviceAll()
-            res = "ok"
+            res = "served"
             if self.listen.pending("accept"):
                 raise AssertionError("the server left connections waiting at the listen socket")
             self.waiting = []
@@ -154,16 +165,6 @@ class ServerAdapter:
         return self.project(res, expected)
 
 
-def _label(act):
-    a = act["a"]
-    if a in ("ServiceConnects", "ServiceAll"):
-        h = act["h"]
-        return "%s(%s)" % (a, ",".join("%s:%s" % (k, h[k]) for k in sorted(h)))
-    if a == "Init":
-        return a
-    return "%s(%s)" % (a, act["ca"])
-
-
 ACTIONS = ["Arrive", "PeerClose", "ServiceConnects", "ServiceAll", "ShutdownIx", "CloseIx", "Remove"]
 
 
@@ -173,45 +174,57 @@ def run_c26(ctx):
                 "every combination of TLS handshake answers; every edge replayed on real Server / ServerTls objects over socket "
                 "doubles, the tables and the state of every socket double compared; distinct = graph edges")
     ctx.assume("TLC, vf/doubles_net.py and the projection functions are trusted")
-    ctx.assume("ssl is not modelled: ServerTls / IncomerTls run over a FakeTlsContext; handshakes answer ok or want-read only")
-    addrs = ["a1", "a2"]
-    maxconns = ctx.pick(3, 4)
-    dot = env.subdir("c26") + "/servertable.dot"
-    res = tlc.run("ServerTable", cfg_text(["plain", "tls"], addrs, maxconns), spec_dir=SPEC_DIR, dump_dot=dot, deadlock=False,
-                  tag="c26", coverage=False, extra_env=jvm_env(ctx.quick))
-    ctx.add_model(res, "ServerTable", {"Kinds": ["plain", "tls"], "Addrs": addrs, "MaxConns": maxconns})
-    if not res.ok:
-        ctx.diverge(Divergence("C26", "model", res.error_name or res.error, "ServerTable", "specification property violated in the model",
-                               steps=[{"action": a, "state": s} for a, s in res.trace]))
-        return
-    g = graph.load_dot(dot)
-    taken = {}
-    nrepl = {"plain": 0, "tls": 0}
-    for st in g.states.values():
-        k = (str(st["kind"]), str(st["act"]["a"]))
-        taken[k] = taken.get(k, 0) + 1
-        if st["replaced"]:
-            nrepl[str(st["kind"])] += 1
-    missing = ["%s/%s" % (k, a) for k in ("plain", "tls") for a in ACTIONS if not taken.get((k, a))]
-    missing += ["%s/replacement of a stale entry" % k for k in nrepl if not nrepl[k]]
-    if missing:
-        raise tlc.TlcError("vacuous model run (ServerTable): never taken: %s" % ", ".join(missing))
-    for (k, a), n in taken.items():
-        ctx.actions.setdefault(a, [0, 0])[1] += n
-    paths, traces = graph_traces(g, 40, _label)
-    n, divs = replay.replay("C26", traces, ServerAdapter)
-    for d in divs:
-        st = d.steps[0]["state"] if d.steps else {}
-        d.where = "%s:%s" % (st.get("kind", "?"), d.where)
-    ctx.diverge(divs)
-    cov = graph.covered_edges(paths)
-    ctx.exhaustive = (cov == g.nedges)
-    for k in ("plain", "tls"):
-        ex = [t for t in traces if t[0][2]["kind"] == k]
-        ctx.sample({"kind": k, "path": [s[0] for s in ex[len(ex) // 2]][:30]})
-    ctx.add_validated(len(traces))
-    ctx.extra.update({"graph_edges": g.nedges, "edges_replayed": cov, "distinct_nontrivial": cov, "evaluations": n,
-                      "MaxConns": maxconns, "Addrs": addrs})
+    ctx.assume("ssl is not modelled: ServerTls / IncomerTls run over a FakeTlsContext; the double answers each handshake with ok, want-read, or a connection-loss error")
+    configs = ctx.pick([(["a1", "a2"], 2), (["a1"], 3)], [(["a1", "a2"], 3), (["a1"], 4)])
+    kinds = ["plain", "tls"]
+    dots = [env.subdir("c26") + "/servertable%d.dot" % i for i in range(len(configs))]
+
+    def model(i):
+        addrs, maxconns = configs[i]
+        return tlc.run("ServerTable", cfg_text(kinds, addrs, maxconns), spec_dir=SPEC_DIR, dump_dot=dots[i], deadlock=False,
+                       tag="c26_%d" % i, extra_env=jvm_env(ctx.quick), workers=max(1, env.NCPU // len(configs)))
+
+    with ThreadPoolExecutor(max_workers=len(configs)) as ex:
+        results = list(ex.map(model, range(len(configs))))
+    total = cov = nsteps = 0
+    for i, ((addrs, maxconns), res) in enumerate(zip(configs, results)):
+        name = "ServerTable/%dx%d" % (len(addrs), maxconns)
+        ctx.add_model(res, name, {"Kinds": kinds, "Addrs": addrs, "MaxConns": maxconns})
+        if not res.ok:
+            ctx.diverge(Divergence("C26", "model", res.error_name or res.error, name, "specification property violated in the model",
+                                   steps=[{"action": a, "state": s} for a, s in res.trace]))
+            continue
+        tlc.require_coverage(res, ACTIONS, name)
+        g = graph.load_dot(dots[i])
+        nrepl = {"plain": 0, "tls": 0}
+        nlost = 0
+        for st in g.states.values():
+            if st["replaced"]:
+                nrepl[str(st["kind"])] += 1
+            if st["lost"]:
+                nlost += 1
+        missing = ["%s/replacement of a stale entry" % k for k in nrepl if not nrepl[k]]
+        if not nlost:
+            missing.append("tls/connection lost during its handshake")
+        if missing:
+            raise tlc.TlcError("vacuous model run (%s): never reached: %s" % (name, ", ".join(missing)))
+        paths = graph.edge_cover(g, max_len=40)
+        traces = replay.graph_paths_to_traces(g, paths)
+        n, divs = replay.replay("C26", traces, ServerAdapter)
+        for d in divs:
+            st = d.steps[0]["state"] if d.steps else {}
+            d.where = "%s:%s" % (st.get("kind", "?"), d.where)
+        ctx.diverge(divs)
+        total += g.nedges
+        cov += graph.covered_edges(paths)
+        nsteps += n
+        for k in kinds:
+            ex = [t for t in traces if t[0][2]["kind"] == k]
+            ctx.sample({"kind": k, "addresses": addrs, "path": [s[0] for s in ex[len(ex) // 2]][:30]})
+        ctx.add_validated(len(traces))
+    ctx.exhaustive = (cov == total)
+    ctx.extra.update({"graph_edges": total, "edges_replayed": cov, "distinct_nontrivial": cov, "evaluations": nsteps,
+                      "configurations": [{"Addrs": a, "MaxConns": m} for a, m in configs]})
 
 
 PROPERTIES = {"C26": run_c26}
